@@ -38,6 +38,7 @@ type Result struct {
 	Samples        []M            `json:"samples"`
 	Disagreements  []Disagreement `json:"disagreements"`
 	NDisagreements int            `json:"n_disagreements"`
+	ByStream       map[string]int `json:"disagreements_by_stream"`
 	KnownHits      map[string]int `json:"known_findings_hit"`
 	Exhaustive     []string       `json:"exhaustive,omitempty"`
 	Asks           int            `json:"asks"`
@@ -48,7 +49,7 @@ type Result struct {
 
 func NewResult(prop, tier string, seed uint64) *Result {
 	return &Result{Property: prop, Tier: tier, Seed: seed, Classes: map[string]int{}, Streams: map[string]int{},
-		KnownHits: map[string]int{}, seen: map[[32]byte]bool{}, sampled: map[string]int{}}
+		KnownHits: map[string]int{}, ByStream: map[string]int{}, seen: map[[32]byte]bool{}, sampled: map[string]int{}}
 }
 
 // Ctx is what one stream worker sees.
@@ -98,7 +99,8 @@ func (c *Ctx) Compare(stream string, op M, impl, model M, class string, nontrivi
 	}
 	if !eq {
 		r.NDisagreements++
-		if len(r.Disagreements) < 40 {
+		r.ByStream[stream+"|"+fmt.Sprint(op["_dev"])]++
+		if r.ByStream[stream+"|"+fmt.Sprint(op["_dev"])] <= 3 && len(r.Disagreements) < 200 {
 			d := Disagreement{Stream: stream, Op: op, Impl: impl, Model: model}
 			d.Asks = append(d.Asks, c.D.AskLog...)
 			r.Disagreements = append(r.Disagreements, d)
